@@ -60,6 +60,50 @@ fn esc(s: &str) -> String {
 
 fn main() {
     let args: Vec<String> = std::env::args().collect();
+    if args.len() == 5 && args[1] == "--smoke" {
+        // replay --smoke <obligation-id> <seed> <count>: body on pseudo-random inputs
+        let id = args[2].clone();
+        let seed: u64 = args[3].parse().unwrap();
+        let count: u64 = args[4].parse().unwrap();
+        panic::set_hook(Box::new(|_| {}));
+        let mut panics = 0;
+        let mut skipped = 0;
+        let mut first = String::new();
+        for k in 0..count {
+            let id2 = id.clone();
+            let r = panic::catch_unwind(move || {
+                let mut s = ReplaySource::random(seed * 1000003 + k);
+                registry::run(&id2, &mut s)
+            });
+            match r {
+                Ok(true) => {}
+                Ok(false) => {
+                    println!("{{\"error\": \"unknown obligation\"}}");
+                    std::process::exit(3);
+                }
+                Err(e) => {
+                    let msg = if let Some(s) = e.downcast_ref::<&str>() {
+                        s.to_string()
+                    } else if let Some(s) = e.downcast_ref::<String>() {
+                        s.clone()
+                    } else {
+                        "<non-string panic>".to_string()
+                    };
+                    if msg.starts_with("[replay]") {
+                        // the random values do not satisfy the obligation's assumption: not a run
+                        skipped += 1;
+                        continue;
+                    }
+                    panics += 1;
+                    if first.is_empty() {
+                        first = msg;
+                    }
+                }
+            }
+        }
+        println!("{{\"runs\": {}, \"panics\": {}, \"first\": \"{}\"}}", count - skipped, panics, esc(&first));
+        std::process::exit(if panics == 0 { 0 } else { 1 });
+    }
     if args.len() != 3 {
         eprintln!("usage: replay <obligation-id> <replay.json>");
         std::process::exit(3);
